@@ -283,6 +283,13 @@ theorem proto_irrelevant (h : Nat → Nat) (t : Table) (p : Option Nat) (k : Nat
     ({ t with proto := p }).count = t.count :=
   ⟨rfl, rfl, rfl, rfl⟩
 
+/-- **iteration visits every key exactly once**: `next` from nil, repeated until it answers nil, enumerates the keys
+in bucket order; that list has no duplicates and contains exactly the keys present in the map -/
+theorem next_visits_each_key_once (h : Nat → Nat) (t : Table) (inv : Inv h t) :
+    iterNext h t.data (t.data.size + 1) none = keysOf t.data ∧ (keysOf t.data).Nodup ∧
+      ∀ k, k ∈ keysOf t.data ↔ abs h t k ≠ vNil :=
+  iterNext_all inv.d
+
 /-- non-vacuity: a table with two colliding keys, a tombstone and a rehash behind it satisfies the hypotheses -/
 example : (run (fun _ => 7) (Table.init 0)
     [.put (.key 1) 5, .put (.key 2) 6, .put (.key 3) 7, .remove 2, .put (.key 4) 1, .put (.key 1) 0]).bad = false := by decide
